@@ -8,6 +8,13 @@ type StanzaErrorGroup interface {
 	GroupErrorName() string
 }
 
+// OtherCondition holds a condition element that has no dedicated type.
+type OtherCondition struct {
+	XMLName xml.Name
+}
+
+func (e *OtherCondition) GroupErrorName() string { return e.XMLName.Local }
+
 type BadFormat struct {
 	XMLName xml.Name `xml:"urn:ietf:params:xml:ns:xmpp-stanzas bad-format"`
 }
